@@ -211,6 +211,9 @@ func (g *rig) probeBound(keys []string) (int, int, bool) {
 		i := strings.IndexByte(mk, ' ')
 		q := &rq{Method: mk[:i], Key: mk[i+1:], Status: 500, Size: 16, Probe: true}
 		g.do(q)
+		if q.Hung {
+			return n, sum, false
+		}
 		if q.Panic != "" {
 			g.reportPanic(q, g.panicClass(q), map[string]any{"during": "bound probe"})
 			return n, sum, false
